@@ -188,7 +188,7 @@ func main() {
 	// (5) crash + recovery by an explored reader: the resolver's status checks in every answer order
 	for _, er := range common.ExploredRecovery(run.Thorough(), keys) {
 		er := er
-		add(er.Name, sched.Bounds{P: 1, F: 1, Horizon: 500}, func() *txnh.TxnScenario {
+		add(er.Name, sched.Bounds{P: 1, F: 2, Horizon: 500}, func() *txnh.TxnScenario {
 			sc := er.Make()
 			sc.CheckFn = monitor
 			return sc
